@@ -3,7 +3,8 @@ import LenaModel.Model.C16
 
 `Model/C16.lean` treats the wrapped element as three total functions and `el.request()` as the list
 of its results.  This file transcribes the same Python (`lena/core/adapters.py:404-481`,
-`lena/core/split.py:361-376, 403-407`, `adapters.py:500-543`) for a wrapped element
+the `fill_request` branch of `Split.run` in `lena/core/split.py` — lines 361-376, 403-407 of the anchored
+revision, 26 lines further down since fix 7235571 —, `adapters.py:500-543`) for a wrapped element
 
 * whose `fill` may raise `LenaStopFill` (leaving some state behind),
 * whose `request()` returns a *generator object*: creating it runs nothing, its body runs — on the
@@ -157,7 +158,7 @@ def traceOpsX (e : ElX σ α β) (ev : Eval) (N : Nat) (rst bi yor : Bool) :
 /-- everything the `request()` calls of a history yielded, in order -/
 def outsX (t : List (CallObs β)) : List β := t.flatMap (fun c => c.out.getD [])
 
-/-! ## Split around a fill/request branch whose `fill` may raise (split.py:361-376, 403-407) -/
+/-! ## Split around a fill/request branch whose `fill` may raise (`Split.run`, branch `seq_type == "fill_request"`) -/
 
 /-- the loop `for val in buf: try: seq.fill(val) except LenaStopFill: stopped = True; break` -/
 def fillBlockX (e : ElX σ α β) (ev : Eval) (N : Nat) (rst bi : Bool) : List α → StX σ α β → StX σ α β × Bool
